@@ -5,6 +5,7 @@ import (
 	"go/constant"
 	"go/token"
 	"go/types"
+	"os"
 	"regexp/syntax"
 	"sort"
 	"strings"
@@ -175,6 +176,54 @@ func ruleNumeric(p *Prog, r *Report) {
 			default:
 				r.Note("%s: component %s (group %d) is kept as %s: its numeric order is decided by the comparator, not by R-CHAIN", e.Name, f.Name(), k, f.Type().String())
 				keys = append(keys, "")
+			}
+		}
+		// a field that Compare reads and that the constructor computes from several numeric components (a
+		// packed sort key, a checksum) is a second encoding of the component order: the queries below tie
+		// or free it independently of the components, so they say nothing about versions for which the
+		// two encodings disagree
+		{
+			lead := map[int]bool{}
+			for _, k := range ef.leadG {
+				lead[k] = true
+			}
+			readByCompare := map[int]bool{}
+			for _, fn := range p.RepoReachable(e.Compare) {
+				for _, b := range fn.Blocks {
+					for _, ins := range b.Instrs {
+						if fa, ok := ins.(*ssa.FieldAddr); ok {
+							if pt, ok := fa.X.Type().Underlying().(*types.Pointer); ok && types.Identical(pt.Elem(), e.VerT) {
+								readByCompare[fa.Field] = true
+							}
+						}
+					}
+				}
+			}
+			for i := 0; i < ef.st.NumFields(); i++ {
+				if !readByCompare[i] {
+					continue
+				}
+				if _, ok := ef.st.Field(i).Type().Underlying().(*types.Basic); !ok {
+					continue
+				}
+				gs := map[int]bool{}
+				for _, g := range ef.prov[i].groups {
+					if g.ri.Pattern == ef.main.Pattern && lead[g.idx] {
+						gs[g.idx] = true
+					}
+				}
+				if os.Getenv("GVDEBUG") == "prov" {
+					fmt.Fprintf(os.Stderr, "prov %s.%s: groups=%v via=%v unknown=%v\n", e.Name, ef.st.Field(i).Name(), len(ef.prov[i].groups), ef.prov[i].via, ef.prov[i].unknown)
+				}
+				if len(gs) >= 2 {
+					var gl []int
+					for g := range gs {
+						gl = append(gl, g)
+					}
+					sort.Ints(gl)
+					r.Und("R-CHAIN", fmt.Sprintf("%s: field %s is a second encoding of the numeric components", e.Name, ef.st.Field(i).Name()), p.FnPos(e.Compare),
+						fmt.Sprintf("Compare reads %s, which the constructor computes from the numeric capture groups %v together: whether the order it induces is the order of the components (for every magnitude) is arithmetic the evaluator does not model", ef.st.Field(i).Name(), gl))
+				}
 			}
 		}
 		// R-CHAIN: first differing numeric component decides, in positional order, with numeric orientation
